@@ -64,6 +64,7 @@ pub enum Kind {
     AirdropC,
     AirToken,
     AirPair,
+    Sink,
 }
 
 #[derive(Clone, Debug)]
@@ -290,7 +291,7 @@ impl Chain {
                         }
                         _ => Err("airtoken: unsupported query".into()),
                     },
-                    Kind::AirdropReg | Kind::AirdropC | Kind::AirPair => Err("no query".into()),
+                    Kind::AirdropReg | Kind::AirdropC | Kind::AirPair | Kind::Sink => Err("no query".into()),
                     Kind::Swap => {
                         if self.swap_mode != "ok" {
                             Err("swap down".into())
@@ -409,6 +410,7 @@ impl Chain {
                     return Ok(());
                 }
                 Kind::Oracle => return Err("no such contract (oracle has no execute)".into()),
+                Kind::Sink => return Ok(()),
                 Kind::AirdropReg | Kind::AirdropC | Kind::AirToken | Kind::AirPair => {
                     let v: Value = serde_json::from_slice(msg.as_slice()).map_err(|e| e.to_string())?;
                     let k = msg_kind(&msg);
@@ -658,6 +660,7 @@ pub fn setup(cfg: &Cfg) -> Chain {
     c.instantiate(Kind::AirdropC, "airdropc", "owner", Binary::default()).unwrap();
     c.instantiate(Kind::AirToken, "airtoken", "owner", Binary::default()).unwrap();
     c.instantiate(Kind::AirPair, "airpair", "owner", Binary::default()).unwrap();
+    c.instantiate(Kind::Sink, "sink", "owner", Binary::default()).unwrap();
     c.instantiate(Kind::Reward, "reward", "owner", to_json_binary(&basset::reward::InstantiateMsg {
         hub_contract: "hub".into(), reward_denom: "kusd".into(), swap_contract: "swap".into(), swap_denoms: vec![] }).unwrap()).unwrap();
     c.instantiate(Kind::Dispatcher, "dispatcher", "owner", to_json_binary(&basset_sei_rewards_dispatcher::msg::InstantiateMsg {
